@@ -221,6 +221,9 @@ func Main(t *testing.T, props map[string]Prop) {
 			sum.Samples = append(sum.Samples, map[string]interface{}{"run_index": i, "seed": seed, "steps": res.Steps,
 				"faults": res.Faults, "case": res.Sample})
 		}
+		if only := envInt("SIM_ONLY_VIOL_AT", -1); only >= 0 && i != only {
+			continue // batch replay: earlier runs only provide the process state
+		}
 		if len(res.Failures) > 0 && len(sum.Violations) < maxViol {
 			pet()
 			v := minimise(t, p, name, res, i, pet)
@@ -277,6 +280,11 @@ func minimise(t *testing.T, p Prop, name string, res Result, idx int, pet func()
 	best := append([]uint32(nil), res.Tape...)
 	runs := 0
 	maxRuns := envInt("SIM_SHRINK_RUNS", 400)
+	if maxRuns == 0 {
+		c, k := failKey(res.Failures)
+		return Violation{Property: name, Clause: c, Key: k, Msg: res.Failures[0].Msg, Seed: res.Seed, RunIndex: idx, Mode: Mode(),
+			Tape: res.Tape, OrigTape: len(res.Tape), TraceHash: fmt.Sprintf("%016x", res.TraceHash)}
+	}
 	deadline := time.Now().Add(time.Duration(envInt("SIM_SHRINK_S", 60)) * time.Second)
 	try := func(c []uint32) bool {
 		if runs >= maxRuns || time.Now().After(deadline) {
